@@ -9,7 +9,7 @@ import glob, json, os, random, re, subprocess, tempfile, time
 
 from common import *
 
-ALL_INVS = ['I_SingleFlight', 'I_BurstCostsOne', 'I_NoEarlyRelease', 'I_HitServed', 'I_LabelTruth', 'I_OnlyStoredIsShared',
+ALL_INVS = ['I_SingleFlight', 'I_BurstCostsOne', 'I_NoEarlyRelease', 'I_NoUntimelyPublish', 'I_HitServed', 'I_LabelTruth', 'I_OnlyStoredIsShared',
             'I_KeyMatch', 'I_HitFresh', 'I_AgeTruth', 'I_RefetchAfterExpiry', 'I_HfpPass', 'I_HfpNeverCached',
             'I_HfpLapses', 'I_PurgeEffective', 'I_BadRecordIsMiss', 'I_NoOwnError', 'I_NoStuck']
 
